@@ -271,10 +271,14 @@ func c02AssertHtlcs(got, want []HTLC) {
 
 const c02Tied = -100
 
+// c02LastShape: the shape the last c02Commit call used.
+var c02LastShape int
+
 func c02Commit(maxHtlcs int) *ChannelCommitment {
 	// shapes: quick = {1 output, no signature, no blob} and {2 outputs,
 	// 4-byte signature, 4-byte custom blob}; thorough = all 8 combinations.
 	shape := c02Choice("commitShape", 2)
+	c02LastShape = shape
 	nOut, sigLen, blob := 1+shape, 4*shape, shape == 1
 	if c02DeepCommit {
 		nOut, sigLen, blob = 1+vChoice("nTxOut", 2), 4*vChoice("commitSigShape", 2), vChoice("customBlob", 2) == 1
